@@ -160,7 +160,7 @@ Section Sim.
     scope_leaf ctx l = [] -> funs_ok (sh w) -> length ctx <= lv ->
     sim (expect_c (Leaf l) stk ctx lv) (exec_leaf rec l (exempt stk) w) (sleaf srec l stk (emb w 0 0 lv)).
   Proof.
-    intros Hs Hf Hl. destruct l as [k|b| |n|n|a|a|o b|f]; cbn [exec_leaf sleaf].
+    intros Hs Hf Hl. destruct l as [k|b| |n|n|a|a|o b|f|a]; cbn [exec_leaf sleaf].
     - intros _. split; [|exact Hf]. apply (check_ok (Leaf (LMark k)) stk ctx lv 0 (emit (EMark k) w)). reflexivity.
     - intros _. split; [|exact Hf]. destruct b; [apply (check_ok (Leaf (LStatus true)) stk ctx lv 0 w)|apply (check_ok (Leaf (LStatus false)) stk ctx lv 1 w)]; reflexivity.
     - intros _. split; [|exact Hf]. apply (check_ok (Leaf LProbe) stk ctx lv 0 (emit (EProbe (last (sh w))) w)). reflexivity.
@@ -222,6 +222,10 @@ Section Sim.
                 exists s. repeat split; assumption.
         * eapply mono_shift; [|apply Mrec]. reflexivity.
       + intros _. split; [|exact Hf]. apply (check_ok (Leaf (LCall f)) stk ctx lv 127 w). reflexivity.
+    - (* assignment-only command *)
+      destruct a as [n|]; cbn; intros _; (split; [|exact Hf]).
+      + apply (check_ok (Leaf (LAssign (Some n))) stk ctx lv (u8 n) (set_last (u8 n) w)). reflexivity.
+      + apply (check_ok (Leaf (LAssign None)) stk ctx lv 0 (set_last 0 w)). reflexivity.
   Qed.
 
   Lemma checks_quiet c : checks c = false -> quiet_compound c = true.
@@ -584,7 +588,7 @@ Section Sim.
     scope_cmd ctx c = [] -> funs_ok (sh w) -> length ctx <= lv ->
     sim (expect_c c stk ctx lv) (exec_cmd rec recw c (exempt stk) w) (scmd srec srecw c stk (emb w 0 0 lv)).
   Proof.
-    intros Hs Hf Hl. destruct c as [l|v lim|b|b|c t elses|u c b|ar n b|arms|f body]; cbn [exec_cmd scmd scope_cmd] in *.
+    intros Hs Hf Hl. destruct c as [l|v lim|b|b|c t elses|u c b|ar n b|arms|f body|k c0]; cbn [exec_cmd scmd scope_cmd] in *.
     - apply sim_leaf; assumption.
     - intros _. split; [|exact Hf]. cbn [b_sh emb].
       destruct (Nat.ltb (ctr v (sh w)) lim).
@@ -643,6 +647,9 @@ Section Sim.
       intros _. split.
       + apply (check_ok (FunDef f body) stk ctx lv 0 (upd_sh (define f body) w)). reflexivity.
       + intros f' body'. cbn. destruct (Nat.eqb f' f); [intros E; inversion E; subst; exact Hs|apply Hf].
+    - (* compound command with redirections: transparent on both sides, also for the errexit decision *)
+      assert (Hs' : scope_cmd ctx c0 = []) by (destruct c0; try discriminate Hs; exact Hs).
+      exact (Hrec c0 stk ctx lv w Hs' Hf Hl).
   Qed.
 
   (** *** one iteration of while / until *)
